@@ -19,7 +19,7 @@ import sys
 
 REPO = os.environ.get("VERIF_REPO", "/repo")
 VERIF = os.path.dirname(os.path.dirname(os.path.abspath(__file__)))
-NETS = ["rand1", "rand2", "material", "extreme"]
+NETS = ["rand1", "rand2", "material", "extreme", "overflow"]
 NET_HARNESSES = ["h_eval"]
 
 VARIANTS = {
